@@ -3,6 +3,10 @@ import Abverif.Model.Crypto.Base64
 /-
 C07 — published test vectors for the SHA-1 and Base64 reference oracles, checked by kernel
 evaluation (`decide +kernel`): RFC 3174 §7.3, RFC 4648 §10, RFC 6455 §1.3.
+
+These are TESTS OF THE REFERENCE implementations `Abverif.Crypto7.Sha1.hash` / `Base64.encode` that `acceptDigest` is
+built from — not statements of the property.  (The reference is additionally compared with hashlib / base64 on random
+inputs of every length 0..129 and on every digest the harness uses.)
 -/
 namespace Abverif.C07.Vectors
 
